@@ -1,30 +1,36 @@
 """C12 — dynamic sections round-trip and end at the first DT_NULL.
 
-Proved (Props/C12.lean, about Model/Dynamic.lean = the accessor *object* with its mutable cached
-count, the dynamic section and the linked string table as C07 `SecBuf`s; every guard / offset /
-width conversion / tag classification is a generated site of Gen/SitesC12.lean):
-  * `dyn_roundtrip`   for ANY interleaving of add(tag,value) / add(tag,string) / num / get(i) on one
-                      accessor object, starting from any consistent state (created, reloaded, or
-                      any bytes), the run does not fault and its outputs are those of the reference
-                      semantics Spec.dynRun (induction over the op list; invariant: cached count is
-                      0 or the correct count of the *current* section);
-  * `fresh_good`      a new accessor object on the same sections satisfies the same invariant;
-  * `added_tracked`   in the reference semantics the k-th added entry is the k-th entry, string
-                      adds resolve to the added string for ever after (append-only table);
-  * `get_added`       hence get(k) returns the k-th added (tag, value[, string]) for k below the count;
-  * `num_def`, `num_le_held`  reported count = min(size/entsize, first DT_NULL + 1) <= size/entsize;
-  * `dyn_bytes`       section content = concatenation of Spec.encodeDyn (gABI encoder, via wrField_eq);
-  * `get_total`       get_entry never faults, for any index;
-  * `nodata_fabricates` a section without data (NOBITS) and size >= entsize reports exactly one
-                      all-zero DT_NULL entry (what the code does);
-  * `entry_roundtrip`, `kind_*`, `string_tag_iff`  codec and classification lemmas: the generated
-                      switch/if agree with the gABI tag sets.
-Tags are signed class-width values: an ELF32 tag >= 2^31 reads back sign-extended to 64 bits
-(Spec.sextTag); d_un of DT_NULL/SYMBOLIC/TEXTREL/BIND_NOW is stored and read as 0 (gABI "ignored").
-Only covered by correspondence + this oracle: "after save and reload" (the harness really saves and
-loads; the model's `reload` abstracts writer+loader), entsize != sizeof(Dyn), truncated link index.
-Finding F2 (stale cached count after add_entry) is repaired by fixes/02-dynamic-stale-count.patch;
-on the unfixed tree this oracle reports it (signature num-mismatch / get-mismatch).
+Proved in Lean (Props/C12.lean + Lemmas/Dynamic.lean) about Model/Dynamic.lean = the accessor *object*
+with its mutable cached count, the dynamic section and the linked string table as C07 `SecBuf`s; every
+guard / loop bound / offset / width conversion / tag classification is a generated site of
+Gen/SitesC12.lean (regenerated from the source each run), record fields sit at Gen/Layout offsets:
+  * `dyn_roundtrip`  for ANY interleaving of add(tag,value) / add(tag,string) / get_entries_num /
+        get_entry(i) on one accessor object, from any consistent state `Good` (cached count = 0 or the
+        count of the *current* section): no fault, outputs = reference semantics `Spec.dynRun`, `Good`
+        again afterwards, section grew by one gABI record per add.  Induction over the op list
+        (`step_ok` = one operation).  Hypotheses: `Good`, whole records (`len % sizeof(Dyn) = 0`),
+        `Fits` (sections < 4 GiB).
+  * `create_good`, `reload_good`, `fresh_good`  a created / saved-and-reloaded / newly constructed
+        accessor is `Good`, so the above covers "the accessor that added it or a new one".
+  * `added_tracked`, `get_added`, `normEntry_id`  in the reference semantics the k-th added item is the
+        k-th entry for ever; get(k), k below the count, returns the k-th added (tag, value) and, for a
+        tag+string add under a string-valued tag, that string; in-domain entries come back unchanged.
+  * `num_def`, `num_le_held`  reported count = min(size/entsize, first DT_NULL + 1) <= size/entsize.
+  * `dyn_bytes` (+ `mkRec32_eq`, `mkRec64_eq`, `decode_encodeDyn`, `entry_roundtrip`)  section content
+        = concatenation of `Spec.encodeDyn` (gABI encoder; via wrField_eq / rdField_eq).
+  * `get_total`  get_entry never faults, any index.  `nodata_fabricates`  a section with a size but no
+        data (loaded SHT_NOBITS) reports exactly one all-zero DT_NULL entry - what the code does.
+  * `kind_zero`, `string_tag_iff`  the generated switch / if agree with the gABI tag sets (d_un ignored:
+        DT_NULL, SYMBOLIC, TEXTREL, BIND_NOW; string-valued: DT_NEEDED, SONAME, RPATH, RUNPATH).
+Stated domain: tags are signed class-width values - an ELF32 tag >= 2^31 reads back sign-extended to
+64 bits (`Spec.sextTag`, `TagFits`); values are class-width; d_un of the four "ignored" tags is stored
+and read as 0; a string-valued tag added as tag+value resolves iff the value is an offset of a string
+in the linked table (32-bit offsets: ELF64 values >= 2^32 wrap - documented quirk, corpus case).
+Only covered by correspondence + this oracle: "after save and reload" end to end (the harness really
+saves and loads; the model's `reload` abstracts writer+loader), sh_entsize != sizeof(Dyn), truncated
+sh_link.  Finding F2 (stale cached count after add_entry) is repaired by
+fixes/02-dynamic-stale-count.patch; on the unfixed tree this oracle reports it (num-mismatch /
+get-mismatch) and the site `dynNN_add_invalidate` is translation-broken.
 """
 import itertools
 
